@@ -28,18 +28,72 @@ import (
 func init() { caseKinds["intercept"] = interceptCase }
 
 type icLog struct {
-	mu     sync.Mutex
-	word   []string
-	infoOK bool
-	ccOK   bool
-	argsOK bool
+	mu      sync.Mutex
+	word    []string
+	seen    [][]string // per entered element: marks found in its context
+	seenReq [][]string // ... in the request (server, unary) / among the call options (client)
+	infoOK  bool
+	ccOK    bool
+	argsOK  bool
 }
 
-func (l *icLog) enter(n string) {
+func (l *icLog) enter(n string) { l.enterSeen(n, nil, nil) }
+
+// enterSeen logs that element n was entered and which marks of rewriting
+// interceptors it found on the way in. seenReq == nil: not observable there.
+func (l *icLog) enterSeen(n string, seen, seenReq []string) {
 	l.mu.Lock()
 	l.word = append(l.word, n)
+	if !strings.HasSuffix(n, "o") {
+		l.seen = append(l.seen, append([]string{}, seen...))
+		if seenReq != nil {
+			l.seenReq = append(l.seenReq, append([]string{}, seenReq...))
+		}
+	}
 	l.mu.Unlock()
 }
+
+type icMarkKey struct{}
+
+func ctxMarks(ctx context.Context) []string {
+	m, _ := ctx.Value(icMarkKey{}).([]string)
+	return append([]string{}, m...)
+}
+
+func withCtxMark(ctx context.Context, name string) context.Context {
+	return context.WithValue(ctx, icMarkKey{}, append(ctxMarks(ctx), ">"+name))
+}
+
+// marks carried by a request message: the ">X" tokens of its payload
+func reqMarks(req interface{}) []string {
+	out := []string{}
+	if m, ok := req.(*gt.Message); ok && m != nil {
+		for _, t := range tokens(string(m.Payload)) {
+			if strings.HasPrefix(t, ">") {
+				out = append(out, t)
+			}
+		}
+	}
+	return out
+}
+
+func withReqMark(req interface{}, name string) interface{} {
+	p := ""
+	if m, ok := req.(*gt.Message); ok && m != nil {
+		p = string(m.Payload)
+	}
+	if p != "" {
+		p += "|"
+	}
+	return &gt.Message{Payload: []byte(p + ">" + name)}
+}
+
+type ctxServerStream struct {
+	grpc.ServerStream
+	ctx context.Context
+}
+
+func (s *ctxServerStream) Context() context.Context { return s.ctx }
 func (l *icLog) bad(what string) {
 	l.mu.Lock()
 	switch what {
@@ -86,7 +140,7 @@ func icDesc() *grpc.ServiceDesc {
 				return nil, err
 			}
 			h := func(ctx context.Context, req interface{}) (interface{}, error) {
-				srv.(*icImpl).log.enter("H")
+				srv.(*icImpl).log.enterSeen("H", ctxMarks(ctx), reqMarks(req))
 				return &gt.Message{Payload: []byte("h")}, nil
 			}
 			if ic == nil {
@@ -97,7 +151,8 @@ func icDesc() *grpc.ServiceDesc {
 	}
 	mks := func(name string, cs, ss bool) grpc.StreamDesc {
 		return grpc.StreamDesc{StreamName: name, ClientStreams: cs, ServerStreams: ss, Handler: func(srv interface{}, st grpc.ServerStream) error {
-			srv.(*icImpl).log.enter("H")
+			m := ctxMarks(st.Context())
+			srv.(*icImpl).log.enterSeen("H", m, m)
 			return st.SendMsg(&gt.Message{Payload: []byte("h")})
 		}}
 	}
@@ -137,7 +192,7 @@ func srvUnaryInt(name, beh string, log *icLog, method string, impl interface{}) 
 		return nil
 	}
 	return func(ctx context.Context, req interface{}, info *grpc.UnaryServerInfo, handler grpc.UnaryHandler) (interface{}, error) {
-		log.enter(name)
+		log.enterSeen(name, ctxMarks(ctx), reqMarks(req))
 		if info == nil || info.FullMethod != method || info.Server != impl {
 			log.bad("info")
 		}
@@ -149,7 +204,8 @@ func srvUnaryInt(name, beh string, log *icLog, method string, impl interface{}) 
 		case "fail":
 			return nil, status.Error(codes.Aborted, "f:"+name)
 		default:
-			resp, err := handler(ctx, req)
+			// onward with a derived context and a replaced request
+			resp, err := handler(withCtxMark(ctx, name), withReqMark(req, name))
 			return markResult(resp, err, name)
 		}
 	}
@@ -160,7 +216,8 @@ func srvStreamInt(name, beh string, log *icLog, method string, cs, ss bool, impl
 		return nil
 	}
 	return func(srv interface{}, st grpc.ServerStream, info *grpc.StreamServerInfo, handler grpc.StreamHandler) error {
-		log.enter(name)
+		m := ctxMarks(st.Context())
+		log.enterSeen(name, m, m)
 		if info == nil || info.FullMethod != method || info.IsClientStream != cs || info.IsServerStream != ss || srv != impl {
 			log.bad("info")
 		}
@@ -172,7 +229,8 @@ func srvStreamInt(name, beh string, log *icLog, method string, cs, ss bool, impl
 		case "fail":
 			return status.Error(codes.Aborted, "f:"+name)
 		default:
-			err := handler(srv, st)
+			// onward with a stream whose context is derived
+			err := handler(srv, &ctxServerStream{ServerStream: st, ctx: withCtxMark(st.Context(), name)})
 			if err != nil {
 				s := status.Convert(err)
 				return status.Error(s.Code(), s.Message()+"|+"+name)
@@ -365,6 +423,9 @@ func serverCase(c, out map[string]interface{}) {
 		}
 	}
 	out["word"], out["result"] = word, result
+	log.mu.Lock()
+	out["seen"], out["seenreq"] = seqs(log.seen), seqs(log.seenReq)
+	log.mu.Unlock()
 	out["descsame"] = reflect.DeepEqual(before, snapDesc(orig))
 	out["sameptr"] = sameptr
 }
@@ -394,8 +455,8 @@ func cliDesc() *grpc.ServiceDesc {
 		if l == nil {
 			return nil
 		}
-		l.enter("H")
 		md, _ := metadata.FromIncomingContext(ctx)
+		l.enterSeen("H", md.Get("ic-mark"), nil)
 		if payload != "req-payload" || len(md.Get("arg-key")) != 1 || md.Get("arg-key")[0] != "arg-val" {
 			l.bad("args")
 		}
@@ -475,7 +536,7 @@ func cliUnaryInt(name, beh string, log *icLog, wantCC *grpc.ClientConn) grpc.Una
 		return nil
 	}
 	return func(ctx context.Context, method string, req, reply interface{}, cc *grpc.ClientConn, invoker grpc.UnaryInvoker, opts ...grpc.CallOption) error {
-		log.enter(name)
+		log.enterSeen(name, mdMarks(ctx), optMarks(opts))
 		if cc != wantCC {
 			log.bad("cc")
 		}
@@ -488,7 +549,15 @@ func cliUnaryInt(name, beh string, log *icLog, wantCC *grpc.ClientConn) grpc.Una
 		case "fail":
 			return status.Error(codes.Aborted, "f:"+name)
 		default:
-			err := invoker(ctx, method, req, reply, cc, opts...)
+			// onward with more outgoing metadata and two more call options:
+			// a marker, and a grpc.Header option whose effect shows whether
+			// the options reached the channel that performs the call
+			var own metadata.MD
+			opts2 := append(append([]grpc.CallOption{}, opts...), markOpt{name: name}, grpc.Header(&own))
+			err := invoker(metadata.AppendToOutgoingContext(ctx, "ic-mark", ">"+name), method, req, reply, cc, opts2...)
+			if err == nil && len(own.Get("opt-seen")) == 0 && string(reply.(*gt.Message).Payload) == "h" {
+				log.bad("args")
+			}
 			if err != nil {
 				st := status.Convert(err)
 				return status.Error(st.Code(), st.Message()+"|+"+name)
@@ -505,7 +574,7 @@ func cliStreamInt(name, beh string, log *icLog, wantCC *grpc.ClientConn) grpc.St
 		return nil
 	}
 	return func(ctx context.Context, desc *grpc.StreamDesc, cc *grpc.ClientConn, method string, streamer grpc.Streamer, opts ...grpc.CallOption) (grpc.ClientStream, error) {
-		log.enter(name)
+		log.enterSeen(name, mdMarks(ctx), optMarks(opts))
 		if cc != wantCC {
 			log.bad("cc")
 		}
@@ -517,7 +586,8 @@ func cliStreamInt(name, beh string, log *icLog, wantCC *grpc.ClientConn) grpc.St
 		case "fail":
 			return nil, status.Error(codes.Aborted, "f:"+name)
 		default:
-			st, err := streamer(ctx, desc, cc, method, opts...)
+			opts2 := append(append([]grpc.CallOption{}, opts...), markOpt{name: name})
+			st, err := streamer(metadata.AppendToOutgoingContext(ctx, "ic-mark", ">"+name), desc, cc, method, opts2...)
 			if err != nil {
 				s := status.Convert(err)
 				return nil, status.Error(s.Code(), s.Message()+"|+"+name)
@@ -625,6 +695,38 @@ func clientCase(c, out map[string]interface{}) {
 		argsok = false
 	}
 	out["word"], out["result"], out["argsok"], out["unwrapok"] = word, result, argsok, unwrapok
+	log.mu.Lock()
+	out["seen"], out["seenopt"] = seqs(log.seen), seqs(log.seenReq)
+	log.mu.Unlock()
+}
+
+// markOpt is a call option without effect that rewriting client interceptors add
+type markOpt struct {
+	grpc.EmptyCallOption
+	name string
+}
+
+func optMarks(opts []grpc.CallOption) []string {
+	out := []string{}
+	for _, o := range opts {
+		if m, ok := o.(markOpt); ok {
+			out = append(out, ">"+m.name)
+		}
+	}
+	return out
+}
+
+func mdMarks(ctx context.Context) []string {
+	md, _ := metadata.FromOutgoingContext(ctx)
+	return append([]string{}, md.Get("ic-mark")...)
+}
+
+func seqs(v [][]string) [][]string {
+	out := [][]string{}
+	for _, x := range v {
+		out = append(out, append([]string{}, x...))
+	}
+	return out
 }
 
 func interceptCase(c map[string]interface{}) (out map[string]interface{}) {
@@ -634,6 +736,7 @@ func interceptCase(c map[string]interface{}) (out map[string]interface{}) {
 	}
 	out["panicked"] = false
 	out["word"], out["result"] = []string{}, []string{}
+	out["seen"], out["seenreq"], out["seenopt"] = [][]string{}, [][]string{}, [][]string{}
 	out["infook"], out["descsame"], out["sameptr"] = true, true, true
 	out["ccok"], out["argsok"], out["unwrapok"] = true, true, true
 	defer func() {
